@@ -140,3 +140,28 @@ reg("C02", "c02",
     "status, returned entity (projected operations), new commits and refs; TLC accepts a trace only if each merge event is the "
     "specification's Merge step with exactly that status, returned entity and resulting state.",
     GB_NOTE, "DESIGN.md section 4, C02")
+
+reg("C05", "c05",
+    "TLA+ specs GitBug.tla (clock part, Reopen, DeleteClocks, loader) and Clock.tla model-checked by TLC; clock values of real "
+    "runs bound to the specification by trace validation; exhaustive clock-object vectors",
+    "TLC checks on every interleaving of edits, reads, merges, re-openings (with clock loaders) and deletions of the clock files "
+    "inside the bounds that the clocks cover every local head after every call, that memory >= disk, and as an action property that "
+    "every new pack's edit time exceeds that of every pack it descends from. Clock.tla enumerates all operation sequences "
+    "(increment / witness v / reload) up to the bound; each is executed on MemClock, PersistedClock, GoGitRepo and the mock "
+    "repository and must give the specification's memory value, file content and returned time after every operation. Schedules "
+    "with restarts are run on real repositories; TLC accepts a trace only if the memory and file values of both clocks equal the "
+    "specification's after every step.",
+    GB_NOTE + " Concurrent increments inside one process belong to C18. The clock loader is the library mechanism "
+    "(bug.ClockLoader); a re-opening without loaders is modelled as such and claims nothing.", "DESIGN.md section 4, C05")
+
+reg("C03", "c03",
+    "TLA+ specs GitBug.tla (Order, ReadOK) and MC_Forge.tla model-checked by TLC; forged histories enumerated by TLC and built on "
+    "both storage backends; real reads bound to Order by trace validation",
+    "TLC checks that on every DAG git-bug can build inside the bounds, and on every clock-consistent forged DAG, the documented "
+    "order never places a pack before one of its ancestors and contains every operation once. MC_Forge enumerates every history "
+    "of <= 3 commits (<= 4 in the thorough tier) over {0,1,2 parents} x edit clocks {0,1,2,3,far} x creation clock x pack contents x "
+    "both pack-id directions with the verdict ReadOK and the prescribed order; the harness builds each with real git objects on "
+    "GoGitRepo and on the mock repository and requires bug.Read (twice) and bug.MergeAll to accept with exactly that order or to "
+    "refuse (error / invalid, local refs untouched, no panic). Reads of self-built histories are bound to Order by the trace "
+    "specification.",
+    GB_NOTE, "DESIGN.md section 4, C03")
